@@ -8,6 +8,7 @@ with  expr ::= ['p', i] | ['u'] | ['prod', expr, ...] | ['sum', a, expr, b]
 Every physical axis occurs in at least one expression.
 """
 import itertools
+import json
 
 
 def numel(e, psizes):
@@ -59,7 +60,7 @@ def _shapes_for(n, depth, sums=(0, 1, 2)):
 
 def _leaves(e, acc):
     if e[0] == 'L':
-        acc.append(e[1])
+        acc.append(e[1] if len(e) < 3 else (e[1], e[2]))
     elif e[0] == 'prod':
         for f in e[1:]:
             _leaves(f, acc)
@@ -226,7 +227,9 @@ def types_for(n, depth=1, max_summands=3):
 def instances(t):
     """axis-expression shapes (with ('L', size) leaf placeholders) that are instances of type t"""
     n = tnumel(t)
-    out = [('u',)] if n == 1 else [('L', n)]
+    # a leaf remembers the index type it densely instantiates: two leaves may share a physical axis only if their types agree
+    # (a diagonal across differently typed indices is ill-typed; the library's unification assumes it does not occur)
+    out = [('u',)] if n == 1 else [('L', n, json.dumps(t))]
     if t[0] == 'x':
         for a in instances(t[1]):
             for b in instances(t[2]):
@@ -255,6 +258,7 @@ def typed_recipes(types, max_axes=3, max_phys=8, layouts=('contig',), same_axis_
         for e in combo:
             _leaves(e, sizes)
         for assign, axsizes in _partitions(sizes, max_axes):
+            axsizes = [a[0] if isinstance(a, tuple) else a for a in axsizes]
             pn = 1
             for s_ in axsizes:
                 pn *= s_
